@@ -238,6 +238,13 @@ def gen_project(rng: random.Random, idx: int) -> Dict[str, Any]:
         if r >= 0.55:
             proj.features.add('rule_pattern_' + level)
         rules.append('%s:%s' % (level, pat))
+    # never hide every root (an empty search corpus makes lunr divide by zero: a C01 matter, see the C11 report)
+    import fnmatch
+    def hides_root(rule: str, root: str) -> bool:
+        lvl, pat = rule.split(':', 1)
+        return lvl == 'HIDDEN' and '.' not in pat.replace('**', '') and fnmatch.fnmatchcase(root, pat.replace('**', '*'))
+    if all(any(hides_root(ru, rt) for ru in rules) for rt in rootnames):
+        rules = [ru for ru in rules if not any(hides_root(ru, rt) for rt in rootnames)]
     args = ['--privacy=%s' % r for r in rules]
     theme = rng.choice(['classic', 'readthedocs', 'base'])
     args.append('--theme=%s' % theme)
